@@ -93,4 +93,17 @@ def Sys.size (s : Sys) : Nat :=
   + s.model.names.length
   + (s.stacks.map fun st => 1 + st.length).sum
 
+/-! ### a small workbook used by the `example`s of Props/C04 and Props/C05: A1 = 1, B1 = A1, C1 = B1,
+    the name `x` bound to A1; `sem0` is a trivial function semantics -/
+
+def sem0 : Sem := { app := fun _ vs => .val (vs.headD (.s .blank)), truth := fun _ => some true }
+def wbA : Addr := "S!A1".toList
+def wbB : Addr := "S!B1".toList
+def wbC : Addr := "S!C1".toList
+def wb : MState :=
+  { cells := [(wbA, { value := .s (.num (.int 1)), formula := none }),
+              (wbB, { value := .s .blank, formula := some (.ref wbA) }),
+              (wbC, { value := .s .blank, formula := some (.ref wbB) })],
+    ranges := [], names := [("x".toList, wbA)] }
+
 end XlVerif.Model.C04
